@@ -243,6 +243,40 @@ def run(ctx, host=None):
     if not viols:
         chk.ok(Pl, q, 'retry loop', detail='every normal exit has an opened stream; FileNotFoundError re-enters loosen_object or raises')
 
+    # P-t: readers and loose writers tolerate a loose file that vanishes between two of their own steps: every path-based lookup (open for reading,
+    # stat, read_bytes ...) of a file below loose/ in their code sits in a try that handles FileNotFoundError; exists() itself cannot fail and is exempt
+    Pt = chk.rule('C04.Pt', 'readers / loose writers: every path-based open/stat of a loose file is guarded by a FileNotFoundError handler (a concurrent packer may remove it at any time)', 3)
+    RW = [f for f in prog.all_functions() if not isinstance(f.node, ast.Lambda) and (
+        f.qualname in (FUNNEL, 'container:Container.loosen_object', 'utils:_compute_hash_for_file')
+        or (f.cls is not None and f.cls.qualname in ('utils:LazyLooseStream', 'utils:ObjectWriter')))]
+    npt = 0
+    for f in RW:
+        for n, cal, effs in S.calls(f):
+            for e in effs:
+                if e[0] in ('STAT', 'READ_PATH') or (e[0] == 'OPEN' and not any(ch_ in (e[2] or '') for ch_ in 'wax+')):
+                    pk = e[1]
+                    ar = areas(K, pk)
+                    if not (ar & {'loose', 'param', 'unknown'}) or (ar & {'sandbox'}):
+                        continue
+                    if ar <= {'param', 'unknown'} and f.qualname != 'utils:_compute_hash_for_file' and not (f.cls is not None and f.cls.qualname == 'utils:LazyLooseStream'):
+                        continue
+                    npt += 1
+                    q = getattr(n, '_parent', None)
+                    guarded = False
+                    while q is not None and q is not f.node:
+                        if isinstance(q, ast.Try) and any(n is x for b in q.body for x in ast.walk(b)):
+                            for h in q.handlers:
+                                ts = norm(h.type) if h.type is not None else '<bare>'
+                                if any(t in ts for t in ('FileNotFoundError', 'OSError', 'Exception', '<bare>')):
+                                    guarded = True
+                        q = getattr(q, '_parent', None)
+                    if guarded:
+                        chk.ok(Pt, f.qualname, norm(n)[:80], detail='inside a try that handles FileNotFoundError', nontrivial=False)
+                    else:
+                        chk.bad(Pt, f.qualname, norm(n)[:100], f'{e[0]} of a loose file by path outside any FileNotFoundError handler: if the packer unlinks the file between this step and the previous one '
+                                '(exists()/open()) the reader or writer fails although the object is safely packed', where=f'{f.module.relpath}:{n.lineno}')
+    chk.require(npt >= 3, f'expected >= 3 path-based lookups of loose files in reader/writer code, found {npt}')
+
     # P-r0: every public key view answers through the funnel (which is where the fallback lives)
     Pr0 = chk.rule('C04.Pr0', 'reader: every public key view (existence, metadata, content, streams) goes through the read funnel, i.e. through the loose-probe -> refresh -> re-query fallback', 8)
     from .c02 import key_views_funnel_only
